@@ -430,6 +430,99 @@ def gen_meta_case(rng, dims=(0, 1, 1, 2, 2, 3, 4)):
     return "meta %s %s %s %s" % (ty, op, " ".join(toks), tail(rng, nx, nr, op.startswith("axpy")))
 
 
+# ----- boundary-sizes: dimensions / index values / counts around 2^7, 2^8, 1000, 2^15, 2^16, with the stored entries,
+# the non-zero operand entries and the stored CSCR rows at the HIGH end (last rows, highest column indices)
+BOUNDARY_QUICK = [127, 128, 129, 255, 256, 257, 1000, 1001]
+BOUNDARY_THOROUGH = [32767, 32768, 65535, 65536, 65537]
+
+
+def _hi_vec(n, vals):
+    """zeros, except the first entry and the last len(vals) entries"""
+    v = [Fraction(0)] * n
+    if n:
+        v[0] = Fraction(1)
+    for k, q in enumerate(vals):
+        if n - 1 - k >= 0:
+            v[n - 1 - k] = Fraction(q)
+    return v
+
+
+def gen_boundary_cases(rng, sizes, heavy):
+    out = []
+    for n in sizes:
+        it = 32
+        # CSR n x (n+1): entries only in the last three rows and one middle row, at the highest columns
+        rows, cols = n, n + 1
+        pat = [[] for _ in range(rows)]
+        pat[rows - 1] = [0, cols - 2, cols - 1]
+        pat[rows - 2] = [cols - 1]
+        pat[rows - 3] = [cols - 1, cols - 2][::-1] if False else [cols - 2, cols - 1]
+        pat[rows // 2] = [rows // 2, cols - 1]
+        rp, ci = csr_arrays(pat)
+        val = [rval(rng, nonzero=True) for _ in ci]
+        x, xt = _hi_vec(cols, [2, -3]), _hi_vec(rows, [2, -3, 5])
+        y, yt = _hi_vec(rows, [7, Fraction(1, 2)]), _hi_vec(cols, [7, Fraction(1, 2)])
+        mat = "%d %d %s %s %s" % (rows, cols, nl(rp), nl(ci), fl(val))
+        out.append("csr %d apply %s 1/1 %s 0 0" % (it, mat, fl(x)))
+        out.append("csr %d axpyT %s -2/1 %s %s 1" % (it, mat, fl(xt), fl(yt)))
+        out.append("csr 64 axpy %s 3/1 %s %s 0" % (mat, fl(x), fl(y)))
+        # CSCR: 0 < used_rows < rows, the stored rows are the last but one and two rows around the middle; r is pre-filled,
+        # so the rows that are not stored must come back as 0 (apply) resp. y (axpy)
+        stored = [rows // 2, rows - 2]
+        spat = [[cols - 1], [0, cols - 1]]
+        rp2, ci2 = csr_arrays(spat)
+        val2 = [rval(rng, nonzero=True) for _ in ci2]
+        cm = "%d %d %s %s %s %s" % (rows, cols, nl(rp2), nl(ci2), fl(val2), nl(stored))
+        out.append("cscr %d apply %s 1/1 %s 0 0" % (it, cm, fl(x)))
+        out.append("cscr %d axpy %s 2/1 %s %s 0" % (it, cm, fl(x), fl(y)))
+        out.append("cscr %d applyT %s 1/1 %s 0 0" % (it, cm, fl(xt)))
+        # banded n x (n+1): lowest sub-diagonal, main diagonal, highest super-diagonal (offsets 0, n-1, 2n-1)
+        off = [0, rows - 1, rows + cols - 2]
+        bval = [Fraction(0)] * (rows * len(off))
+        for k in range(len(off)):
+            for i in (0, rows // 2, rows - 2, rows - 1):
+                bval[k * rows + i] = rval(rng, nonzero=True)
+        out.append("banded %d apply %d %d %s %s 1/1 %s 0 0" % (it, rows, cols, nl(off), fl(bval), fl(x)))
+        out.append("banded %d axpy %d %d %s %s -1/1 %s %s 1" % (it, rows, cols, nl(off), fl(bval), fl(x), fl(y)))
+        if heavy:
+            continue
+        # number of bands 3 / 5 / 9 / 25 (the FEAT_UNROLL_BANDED switch) on a matrix with n rows
+        for noo in (5, 9, 25):
+            offs = sorted(rng.sample(range(rows + cols - 1), noo - 2) + [0, rows + cols - 2])
+            offs = sorted(set(offs))
+            bv = [Fraction(0)] * (rows * len(offs))
+            for k in range(len(offs)):
+                for i in (0, rows - 1, rng.randrange(rows)):
+                    bv[k * rows + i] = rval(rng, nonzero=True)
+            if n in (128, 257, 1000):
+                out.append("banded 64 apply %d %d %s %s 1/1 %s 0 0" % (rows, cols, nl(offs), fl(bv), fl(x)))
+        # CSR times blocked vectors, block size 2
+        xb = _hi_vec(cols * 2, [2, -3, 4])
+        yb = _hi_vec(rows * 2, [7, 1])
+        out.append("csrsb %d 2 axpy %s 2/1 %s %s 0" % (it, mat, fl(xb), fl(yb)))
+        # BCSR 2x3, all vectors blocked, n block rows: blocks in the last block row at the first and last block column
+        bpat = [[] for _ in range(rows)]
+        bpat[rows - 1] = [0, cols - 1]
+        bpat[rows // 2] = [cols - 1]
+        brp, bci = csr_arrays(bpat)
+        bvv = [rval(rng, nonzero=True) for _ in range(len(bci) * 6)]
+        xbb = _hi_vec(cols * 3, [2, -3, 4])
+        xbt = _hi_vec(rows * 2, [2, -3])
+        out.append("bcsr %d 2 3 3 apply %d %d %s %s %s 1/1 %s 0 0" % (it, rows, cols, nl(brp), nl(bci), fl(bvv), fl(xbb)))
+        out.append("bcsr %d 2 3 0 applyT %d %d %s %s %s 1/1 %s 0 0" % (it, rows, cols, nl(brp), nl(bci), fl(bvv), fl(xbt)))
+        # dense n x 2 and 2 x n
+        dv = [rval(rng) for _ in range(n * 2)]
+        out.append("dense apply %d 2 %s 1/1 2 2/1 -1/1 0 0" % (n, fl(dv)))
+        out.append("dense applyT %d 2 %s 1/1 %s 0 0" % (n, fl(dv), fl(_hi_vec(n, [2, -3]))))
+        out.append("dense axpy 2 %d %s 2/1 %s 2 1/1 1/2 1" % (n, fl(dv), fl(_hi_vec(n, [2, -3]))))
+        # meta: block row of three CSR blocks with n columns each, flat and structured operands
+        leaf = "csr 2 %d 3 0 1 2 2 %d %d 2 3/1 -1/1" % (n, n - 1, n - 1)
+        xm = _hi_vec(3 * n, [2, -3])
+        out.append("meta prow3_csr apply R %s R %s %s 1/1 %s 0 0" % (leaf, leaf, leaf, fl(xm)))
+        out.append("meta prow3_csr axpyTF R %s R %s %s 2/1 2 1/1 -1/1 %s 0" % (leaf, leaf, leaf, fl(_hi_vec(3 * n, [7]))))
+    return out
+
+
 def gen_cases(rng, count, sizes):
     return [gen_case(rng, sizes) for _ in range(count)]
 
@@ -873,6 +966,19 @@ def describe(case):
     return keys
 
 
+def describe_boundary(case):
+    """exact size histogram of the boundary stream"""
+    try:
+        c = Case(case)
+    except Exception:
+        return ["unparsable"]
+    keys = ["fmt:" + c.fmt, "op:%s/%s" % (c.fmt, c.op), "rows:%d" % c.prow, "cols:%d" % c.pcol, "it:%d" % c.it]
+    if c.m:
+        keys.append("max-row-with-entry:%d" % max(i for (i, j) in c.m))
+        keys.append("max-col-with-entry:%d" % max(j for (i, j) in c.m))
+    return keys
+
+
 def canon(out):
     # "not implemented" (the format does not offer the operation) is a different outcome than an assertion abort
     if out.startswith("ABORT:not_implemented") or out.startswith("ABORT:not-offered"):
@@ -931,6 +1037,11 @@ def main(argv):
                           model_filter=edge_model_filter)
     st = vlib.Stream("apply", cases, [binary], vlib.driver_cmd(PROP), oracle=oracle, nontrivial=nontrivial,
                      describe=describe, signature=signature, canon=canon)
+    bcases = [] if args.replay else gen_boundary_cases(rng, BOUNDARY_QUICK, False)
+    if args.tier == "thorough" and not args.replay:
+        bcases += gen_boundary_cases(rng, BOUNDARY_THOROUGH, True)
+    st_bound = vlib.Stream("boundary-sizes", bcases, [binary], vlib.driver_cmd(PROP), oracle=oracle, nontrivial=nontrivial,
+                           describe=describe_boundary, signature=signature, canon=canon)
     fl_src = [c for c in cases if f64_supported(c)][: (2500 if args.tier == "quick" else 40000)]
     st_f64 = vlib.Stream("f64-nan-prefill", ["f64 " + c for c in fl_src], [binary], None, oracle=oracle_fl,
                          describe=lambda c: describe(c[4:]), signature=signature)
@@ -944,8 +1055,10 @@ def main(argv):
                   "transposed forms, 32/64-bit indices, r aliasing y, alpha in {0, +-1, below eps, eps, general}; "
                   "non-trivial = at least one stored entry and one of {empty row, rectangular, alpha not in {0,1}, "
                   "r aliases y, transposed, block > 1}")
-    rc = vlib.run_pipeline(PROP, args.tier, args.seed, lean, [st, st_edge, st_f64, st_f32], t0, assumptions=[
-        "Index modelled as unbounded Nat (no 32/64-bit overflow at the sizes generated)",
+    rc = vlib.run_pipeline(PROP, args.tier, args.seed, lean, [st, st_edge, st_bound, st_f64, st_f32], t0, assumptions=[
+        "Index / IT_ (uint32, uint64) modelled as unbounded Nat; stream boundary-sizes crosses 2^7, 2^8, 1000 (thorough: 2^15, "
+        "2^16) in dimensions, index values and counts with the interesting entries at the high end; 2^32 is covered by the "
+        "theorems C01.index32_*",
         "exact rational arithmetic at Q in the main stream; stream f64-nan-prefill re-runs the leaf formats at double with "
         "NaN-pre-filled r under the a-priori bound gamma_{n+8}(|alpha||A||x|+|y|) (gamma of C01.fl_rowloop_gamma), stream "
         "f32-nan-prefill the same at float; meta-matrices and blocked vectors are not re-run in floating point",
